@@ -39,10 +39,20 @@ def one(w):
     print(name, verdict, fps[:2], flush=True)
     return name, {"property": pid, "tier": tier, "verdict": verdict, "fingerprints": fps, "evaluations_until_stop": int(ev.group(1)) if ev else None}
 resf = os.path.join(ROOT, "seeded", "RESULTS.json")
+import fcntl
+def record(name, r):
+    # several sweeps may run at once (one per strengthening author): merge under a lock instead of rewriting a stale copy
+    with open(resf + ".lock", "w") as lk:
+        fcntl.flock(lk, fcntl.LOCK_EX)
+        res = json.load(open(resf)) if os.path.exists(resf) else {}
+        res[name] = r
+        tmp = resf + ".tmp%d" % os.getpid()
+        json.dump(res, open(tmp, "w"), indent=1, sort_keys=True)
+        os.replace(tmp, resf)
+    return res
 res = json.load(open(resf)) if os.path.exists(resf) else {}
 with cf.ThreadPoolExecutor(jobs) as ex:
     for name, r in ex.map(one, work):
-        res[name] = r
-        json.dump(res, open(resf, "w"), indent=1, sort_keys=True)
+        res = record(name, r)
 c = sum(1 for r in res.values() if r["verdict"] == "caught")
 print("caught %d of %d recorded" % (c, len(res)))
